@@ -464,6 +464,112 @@ theorem pngUnfilterGo_length (alg bpp : Nat) (enc : Bytes) : ∀ s ps pr, (pngUn
   | nil => intros; simp [pngUnfilterGo]
   | cons c rest ih => intro s ps pr; simp [pngUnfilterGo, ih]
 
+
+/-! ### the row clamp of `FilterCCITTFax.Decode` is unconditional -/
+
+/-- the effective `MaxRows` is a function of `/Columns` and `/Rows` alone: no value of K,
+EndOfLine, EncodedByteAlign, EndOfBlock, BlackIs1 or DamagedRowsBeforeError bypasses the clamp -/
+theorem decodeMaxRows_depends_only_on_geometry (f g : FCCITT) (hc : f.columns = g.columns) (hr : f.rows = g.rows) :
+    f.decodeMaxRows = g.decodeMaxRows := by
+  unfold FCCITT.decodeMaxRows FCCITT.cols; rw [hc, hr]
+
+/-- **clamp for every parameter combination**: for every K, Columns, Rows (absent, small, huge,
+negative — any integer), EndOfBlock, EndOfLine, EncodedByteAlign, BlackIs1: the reader is built
+with `1 ≤ MaxRows ≤ geoMax(Columns) ≤ MaxImageHeight`; an explicit `/Rows` survives exactly when
+it is positive and not above the geometric cap; all other reader parameters are the encoder's. -/
+theorem decode_clamp_unconditional (k cols rows dmg : Int) (eol align ieob b1 : Bool) :
+    let f : FCCITT := ⟨k, eol, align, cols, rows, ieob, b1, dmg⟩
+    1 ≤ f.decParams.maxRows ∧ (f.decParams.maxRows : Int) ≤ geoMax f.cols ∧
+    geoMax f.cols ≤ (Gen.limits_MaxImageHeight : Int) ∧
+    ((0 < rows ∧ rows ≤ geoMax f.cols) → (f.decParams.maxRows : Int) = rows) ∧
+    (¬ (0 < rows ∧ rows ≤ geoMax f.cols) → (f.decParams.maxRows : Int) = geoMax f.cols) ∧
+    f.decParams.columns = f.encParams.columns ∧ f.decParams.k = k ∧ f.decParams.ignoreEOB = ieob := by
+  intro f
+  obtain ⟨g1, g2⟩ := geoMax_pos f.cols
+  have hd : f.decodeMaxRows = (if rows ≤ 0 ∨ rows > geoMax f.cols then geoMax f.cols else rows) := rfl
+  have hm : (f.decParams.maxRows : Int) = f.decodeMaxRows := by
+    show ((f.decodeMaxRows.toNat : Nat) : Int) = f.decodeMaxRows
+    have := (decodeMaxRows_pos f).1
+    omega
+  refine ⟨?_, ?_, g2, ?_, ?_, rfl, rfl, rfl⟩
+  · have := (decodeMaxRows_pos f).1; omega
+  · rw [hm, hd]; split <;> omega
+  · intro h; rw [hm, hd, if_neg (by omega)]
+  · intro h; rw [hm, hd, if_pos (by omega)]
+
+
+/-- rows × columns after the clamp, for EVERY filter value (any K, EndOfBlock, Rows, Columns ≥ 1,
+not only parsed ones): at most `MaxImagePixels` pixels, or one row when a single row is wider -/
+theorem clamp_pixels_bound (f : FCCITT) (hc : 1 ≤ f.cols) :
+    f.decodeMaxRows * f.cols ≤ max (Gen.limits_MaxImagePixels : Int) f.cols := by
+  have hp : (Gen.limits_MaxImagePixels : Int) = 134217728 := by decide
+  have hh : (Gen.limits_MaxImageHeight : Int) = 65536 := by decide
+  have hle : f.decodeMaxRows ≤ geoMax f.cols := by unfold FCCITT.decodeMaxRows; simp only []; split <;> omega
+  have hpos := (decodeMaxRows_pos f).1
+  rw [hp]
+  by_cases hbig : f.cols ≤ 134217728
+  · have hq : 1 ≤ (134217728 : Int) / f.cols := Int.le_ediv_of_mul_le (by omega) (by omega)
+    have hg : geoMax f.cols ≤ (134217728 : Int) / f.cols := by
+      unfold geoMax; rw [hp, hh]
+      rw [Int.tdiv_eq_ediv_of_nonneg (by omega)]
+      rw [show max f.cols 1 = f.cols from by omega]
+      omega
+    have : f.decodeMaxRows * f.cols ≤ 134217728 :=
+      calc f.decodeMaxRows * f.cols ≤ (134217728 / f.cols) * f.cols :=
+            Int.mul_le_mul_of_nonneg_right (Int.le_trans hle hg) (by omega)
+        _ ≤ 134217728 := Int.ediv_mul_le _ (by omega)
+    omega
+  · have hg : geoMax f.cols = 1 := by
+      unfold geoMax; rw [hp, hh]
+      rw [Int.tdiv_eq_ediv_of_nonneg (by omega)]
+      rw [show max f.cols 1 = f.cols from by omega]
+      have : (134217728 : Int) / f.cols = 0 := Int.ediv_eq_zero_of_lt (by omega) (by omega)
+      rw [this]; omega
+    have h1 : f.decodeMaxRows = 1 := by omega
+    rw [h1]; omega
+
+/-- the model reader never delivers more rows than `MaxRows` (here `MaxRows > 0`, which
+`decode_clamp_unconditional` guarantees for every stream the filter opens) -/
+theorem readRows_count (p : CParams) : ∀ (fuel : Nat) (r : Rd) (numRows : Nat) (refLine : Bits),
+    0 < p.maxRows → numRows ≤ p.maxRows → (Rd.readRows r p fuel numRows refLine).1.length + numRows ≤ p.maxRows := by
+  intro fuel
+  induction fuel with
+  | zero => intro r n rl h0 h; simp [Rd.readRows]; exact h
+  | succ f ih =>
+    intro r n rl h0 h
+    unfold Rd.readRows
+    split
+    · rename_i hc
+      have hlt : n < p.maxRows := by rcases hc.2 with h1 | h1 <;> omega
+      simp only []
+      split
+      · simp; exact h
+      · simp only [List.length_cons]
+        rw [Nat.add_assoc, Nat.add_comm 1 n]
+        exact ih _ _ _ h0 (by omega)
+    · simp; exact h
+
+/-- **rows bound on arbitrary bytes**: whatever the body and whatever the parameters, the
+CCITTFax reader opened by `FilterCCITTFax.Decode` delivers at most `geoMax(Columns)` rows, hence
+at most `MaxImageHeight`, and at most `/Rows` when that is in range -/
+theorem decode_rows_bounded (f : FCCITT) (data : Bytes) :
+    ((decodeRows f.decParams data).1.length : Int) ≤ f.decodeMaxRows ∧
+    f.decodeMaxRows ≤ geoMax f.cols ∧ geoMax f.cols ≤ (Gen.limits_MaxImageHeight : Int) := by
+  obtain ⟨d1, d2, d3⟩ := decodeMaxRows_pos f
+  have hpos : 0 < f.decParams.maxRows := by omega
+  have := readRows_count f.decParams (8 * data.length + 8) { win := [], src := data, err := 0, line := [] } 0
+    (if f.decParams.k ≠ 0 then List.replicate (f.decParams.lineBytes * 8) (!f.decParams.blackIs1) else []) hpos (by omega)
+  have hm : (f.decParams.maxRows : Int) = f.decodeMaxRows := by
+    show ((f.decodeMaxRows.toNat : Nat) : Int) = f.decodeMaxRows
+    omega
+  refine ⟨?_, ?_, (geoMax_pos f.cols).2⟩
+  · unfold decodeRows; simp only []; omega
+  · unfold FCCITT.decodeMaxRows; simp only []; split <;> omega
+
+example : ((decodeRows (⟨-1, false, false, 8, 1048576, true, false, 0⟩ : FCCITT).decParams (List.replicate 4 255)).1.length) = 27 := by
+  decide +kernel
+example : (⟨-1, false, false, 1048576, 1048576, true, false, 0⟩ : FCCITT).decParams.maxRows = 128 := by decide
+
 /-! ### inline literals of the anchored Go functions
 
 The models repeat the integer literals that the Go code writes inline (`p.Colors > 60`,
